@@ -370,6 +370,9 @@ class Polyhedron(Shape3D):
                 self._faces[i] = self._faces[i][::-1]
                 self._equations[i] *= -1
 
+        # The edge list is cached and depends on the vertex order within the faces.
+        self.__dict__.pop("edges", None)
+
     @property
     def vertices(self):
         """:math:`(N, 3)` :class:`numpy.ndarray`: Get the vertices of the polyhedron."""
